@@ -26,6 +26,7 @@ BOUNDS = {
     "quick": "all shapes (I,J,K) in {1..4}^3 x modes 0..2 x 3 layouts; images H,W in {1..4} x 5 value classes x 3 real parts; psnr/relative_error on 6 pair kinds; add_awgn_snr: 4 snr x 8 shapes with a stub generator, and for images with at most 12 components the exact expectation over all 2^N sign streams",
     "thorough": "shapes up to 6^3, images up to 6x6",
 }
+THOROUGH_STREAMS = 8
 WALL_BUDGET = {"quick": 120, "thorough": 600}
 ASSUMPTIONS = ["quat_to_rgb's documented default clip=True is a post-processing step (values in [-0.5,1.5] are clipped to [0,1]); the inverse-mapping clause is checked with clip=False for every value range and with clip=True on [0,1] data",
                "relative_error with an all-zero reference is documented to return inf and is excluded from the 'zero iff equal' clause",
